@@ -287,3 +287,55 @@ Theorem C05_entry_strides_agree :
   ITER_FILL_JSTEP = BLD_JSTEP.
 Proof. exact OffsetTies.strides_agree. Qed.
 Print Assumptions C05_entry_strides_agree.
+
+(* M6 (second review): the fuel the model passes is never what decides an answer, on ARBITRARY inputs -- also for the loops
+   whose exhaustion is an ordinary value (None, Ok None, Ok buf, PErr, the input itself), about which `<> Err EFuel` says
+   nothing: any fuel above the one the model passes gives the same answer (FuelIndep.v) *)
+From JB Require FuelIndep.
+Theorem C05_fuel_is_never_decisive :
+  (forall k bs i len index joff voff, (length bs < k)%nat -> Walk.jbi_loop k bs i len index joff voff = Walk.jbi_loop (S (length bs)) bs i len index joff voff) /\
+  (forall k bs i len j, (length bs < k)%nat -> Walk.rd_words k bs i len j = Walk.rd_words (S (length bs)) bs i len j) /\
+  (forall k bs i len joff voff, (length bs < k)%nat -> Walk.values_loop k bs i len joff voff = Walk.values_loop (S (length bs)) bs i len joff voff) /\
+  (forall func bs k i size joff voff back, (length bs < k)%nat -> CastWalk.tcs_entries k func bs i size joff voff back = CastWalk.tcs_entries (S (length bs)) func bs i size joff voff back) /\
+  (forall func bs k, (S (length bs) < k)%nat -> CastWalk.tcs_run k func bs [0] = CastWalk.traverse_check_string_b bs func).
+Proof. split; [exact FuelIndep.jbi_any_fuel|split; [exact FuelIndep.rd_words_any_fuel|split; [exact FuelIndep.values_any_fuel|split; [exact FuelIndep.tcs_entries_any_fuel|exact FuelIndep.traverse_check_string_any_fuel]]]]. Qed.
+Print Assumptions C05_fuel_is_never_decisive.
+
+(* L2/L3 (second review): get_by_index compares the caller's index with the length before anything else (no unary conversion of
+   a caller-chosen number: an index beyond the end -- up to usize::MAX -- is answered None at once) *)
+Theorem C05_get_by_index_beyond_the_end : forall l i, lenN l <= i -> TreeOps.get_by_index_t (VArr l) i = None.
+Proof. intros l i H. cbn [TreeOps.get_by_index_t]. destruct (lenN l <=? i) eqn:E; [reflexivity|apply N.leb_gt in E; exfalso; apply (N.lt_irrefl i); apply (N.lt_le_trans _ _ _ E H)]. Qed.
+Print Assumptions C05_get_by_index_beyond_the_end.
+
+(* L7 (second review): the offset families above agree with each other; here the first member of each family IS the offset at
+   which the documented layout puts the thing the family is named after, for a container standing at any offset |A| of a
+   buffer (OffsetLayout.v): so every generated offset of every walker and of the builder is the layout offset *)
+From JB Require OffsetLayout.
+Theorem C05_generated_offsets_are_the_layout_offsets :
+  (forall A l B, exists pre, A ++ CodecProofs.payload (VArr l) ++ B = pre ++ flat_map CodecProofs.payload l ++ B /\
+                             lenN pre = JBI_VOFF (lenN A) (lenN l)) /\
+  (forall A l B, exists pre, A ++ CodecProofs.payload (VArr l) ++ B
+                             = pre ++ flat_map be32 (map RoundtripProofs.word l) ++ flat_map CodecProofs.payload l ++ B /\
+                             lenN pre = JBI_JOFF (lenN A) /\ pre = A ++ be32 (WalkProofs.arr_hdr l)) /\
+  (forall A o B, exists pre, A ++ CodecProofs.payload (VObj o) ++ B
+                             = pre ++ flat_map be32 (WalkProofs.kws o ++ WalkProofs.vws o) ++ WalkProofs.keys_bytes o
+                                   ++ flat_map CodecProofs.payload (WalkProofs.vals o) ++ B /\
+                             lenN pre = JBN_JOFF (lenN A) /\ pre = A ++ be32 (WalkProofs.obj_hdr o)) /\
+  (forall A o B, exists pre, A ++ CodecProofs.payload (VObj o) ++ B
+                             = pre ++ WalkProofs.keys_bytes o ++ flat_map CodecProofs.payload (WalkProofs.vals o) ++ B /\
+                             lenN pre = JBN_KOFF (lenN A) (lenN o)) /\
+  (forall A o B, exists pre, A ++ CodecProofs.payload (VObj o) ++ B = pre ++ flat_map CodecProofs.payload (WalkProofs.vals o) ++ B /\
+                             lenN pre = JBN_VOFF (lenN A) (lenN o) + lenN (WalkProofs.keys_bytes o)) /\
+  (forall A o B, exists pre, A ++ CodecProofs.payload (VObj o) ++ B
+                             = pre ++ flat_map be32 (WalkProofs.vws o) ++ WalkProofs.keys_bytes o
+                                   ++ flat_map CodecProofs.payload (WalkProofs.vals o) ++ B /\
+                             lenN pre = JBN_JOFF (lenN A) + JBN_JSTEP1 * lenN o) /\
+  (forall (ws : list N) i w, nth_opt ws i = Some w ->
+     exists pre post, flat_map be32 ws = pre ++ be32 w ++ post /\ lenN pre = BLD_JSTEP * N.of_nat i).
+Proof.
+  split; [exact OffsetLayout.arr_payloads_at_VOFF|]. split; [exact OffsetLayout.arr_entry_words_at_JOFF|].
+  split; [exact OffsetLayout.obj_entry_words_at_JOFF|]. split; [exact OffsetLayout.obj_keys_at_KOFF|].
+  split; [exact OffsetLayout.obj_value_payloads_after_keys|]. split; [exact OffsetLayout.obj_value_words_after_key_words|].
+  exact OffsetLayout.entry_word_i_at_stride.
+Qed.
+Print Assumptions C05_generated_offsets_are_the_layout_offsets.
